@@ -51,7 +51,7 @@ package action
 //@   ensures[C04]   err == nil ==> pay5(bank, core.ModuleAddress, result.Values) == feePay5(bank, A, transferDenom, feesInfo)
 
 //@ func (c *FeeController) executeAction(ctx, fees) (err)
-//@   requires[base] c != nil && c.BankKeeper != nil
+//@   requires[inv]  c != nil && c.BankKeeper != nil
 //@   requires[base] len(fees) <= 5
 //@   requires[base] oneCoin5(fees)
 //@   loop 0 unroll 5
@@ -64,7 +64,7 @@ package action
 
 
 //@ func (c *FeeController) HandlePacket(ctx, packet) (err)
-//@   requires[base] c != nil && c.BankKeeper != nil && c.eventService != nil
+//@   requires[inv]  c != nil && c.BankKeeper != nil && c.eventService != nil
 //@   requires[base] packet != nil && packet.TransferAttributes != nil
 //@   requires[base] !isnil(packet.TransferAttributes.destinationCoin.Amount) && val(packet.TransferAttributes.destinationCoin.Amount) > 0 && validDenom(packet.TransferAttributes.destinationCoin.Denom)
 //@   letold ta = packet.TransferAttributes
